@@ -458,11 +458,21 @@ fn replay(p: &P17, choices: &[usize]) -> Option<String> {
     shm.records().into_iter().find(|(t, _)| *t == b'R').map(|(_, d)| String::from_utf8_lossy(&d).to_string())
 }
 
+/// quick tier: programs with three actors get one deviation less, so that the whole list completes
+/// within the quick budget (the bound of every program is in the evidence)
+fn bound_for(p: &P17, bound: (usize, usize), thorough: bool) -> (usize, usize) {
+    if !thorough && p.actors.len() >= 3 {
+        (bound.0, bound.1 - 1)
+    } else {
+        bound
+    }
+}
+
 pub fn c17(tier: &str) -> ! {
     let mut rep = Report::new("C17", tier, "model_checking");
     let t = tier == "thorough";
     let bound = if t { (2, 4) } else { (1, 3) };
-    let parts = if t { 8 } else { 2 };
+    let parts = if t { 16 } else { 8 };
     let budget = Duration::from_secs(match std::env::var("RDBCHECK_BUDGET_S").ok().and_then(|s| s.parse().ok()) {
         Some(s) => s,
         None => {
@@ -503,7 +513,7 @@ pub fn c17(tier: &str) -> ! {
     let deadline = Instant::now() + budget;
     let (capped, machinery) = pool(jobs.len(), workers(), &shm, Some(deadline), move |j| {
         let (p, i) = jobs2[j];
-        if !job(&progs2[p], bound, (i, parts), &shm2, p, Some(deadline)) {
+        if !job(&progs2[p], bound_for(&progs2[p], bound, t), (i, parts), &shm2, p, Some(deadline)) {
             shm2.add(C_USER + 500, 1);
         }
     });
@@ -554,6 +564,9 @@ pub fn c17(tier: &str) -> ! {
     for (i, p) in progs.iter().enumerate() {
         let mut d = p.describe();
         d["schedules_explored"] = json!(shm.get(C_USER + i));
+        let b = bound_for(p, bound, t);
+        d["preemption_bound"] = json!(b.0);
+        d["deviation_bound"] = json!(b.1);
         rep.cov_push("thread_programs", d.clone());
         if i < 3 {
             rep.cov_push("samples", d);
